@@ -261,7 +261,7 @@ def has_zero_child(e):
 # ------------------------------------------------------------------------------------------ queries
 
 QKINDS = ["matmul_vec", "matmul_mat", "matmul_batched", "matmul_bcast", "rmatmul", "rmatvec", "tmatmul", "t_matmul_internal",
-          "to_dense", "t_to_dense", "size"]
+          "to_dense", "t_to_dense", "size", "accessors"]
 
 
 def make_queries(rng, e):
@@ -283,7 +283,7 @@ def make_queries(rng, e):
     # the internal _t_matmul (reached publicly only below Root-like parents and in backward passes)
     tb2 = rng.choice([[], batch])
     qs.append(("t_matmul_internal", ob.rand_t(rng, list(tb2) + [m, rng.choice([1, 3])])))
-    qs += [("to_dense", None), ("t_to_dense", None), ("size", None)]
+    qs += [("to_dense", None), ("t_to_dense", None), ("size", None), ("accessors", None)]
     return qs
 
 
@@ -334,6 +334,8 @@ def run_query(op, kind, rhs, dtype):
             if not ok:
                 return ("err", "size()/dim()/batch_shape/matrix_shape/numel() inconsistent with shape %s" % (tuple(s),))
             return ("ok", tuple(int(v) for v in s), extra)
+        elif kind == "accessors":
+            return ("ok", (int(op.dim()), int(op.numel())), extra)
         else:
             raise ValueError(kind)
         if not torch.is_tensor(res):
@@ -359,6 +361,8 @@ def expected(D, kind, rhs, dtype):
         return D.mT
     if kind == "size":
         return tuple(D.shape)
+    if kind == "accessors":
+        return (D.dim(), D.numel())
     raise ValueError(kind)
 
 
@@ -383,6 +387,8 @@ def predicate(e, kind, rhs, dtype, obs, D):
     got = obs[1]
     if kind == "size":
         return None if tuple(got) == tuple(exp) else ("shape", "shape %s, dense %s" % (got, exp))
+    if kind == "accessors":
+        return None if tuple(got) == tuple(exp) else ("shape", "(dim(), numel()) = %s, dense %s" % (got, exp))
     if tuple(got.shape) != tuple(exp.shape):
         return ("shape", "result shape %s, dense result shape %s" % (tuple(got.shape), tuple(exp.shape)))
     g64, e64 = got.to(torch.float64), exp.to(torch.float64)
@@ -404,6 +410,8 @@ def obs_lit(kind, obs, vec_rows):
     if kind == "size":
         s = list(obs[1])
         return "(ObsT %s %d %d [])" % (natlist(s[:-2][::-1]), s[-2], s[-1])
+    if kind == "accessors":
+        return "(ObsT [] %d %d [])" % (obs[1][0], obs[1][1])
     x = obs[1].to(torch.float64)
     if vec_rows:
         x = x.unsqueeze(-1)
@@ -427,7 +435,7 @@ def query_lit(kind, rhs):
         return "QTMatmul %s" % bt_lit(ob.tt(rhs, torch.float64))
     if kind == "t_matmul_internal":
         return "QTmmInternal %s" % bt_lit(ob.tt(rhs, torch.float64))
-    return {"to_dense": "QToDense", "t_to_dense": "QTToDense", "size": "QSize"}[kind]
+    return {"to_dense": "QToDense", "t_to_dense": "QTToDense", "size": "QSize", "accessors": "QAccessors"}[kind]
 
 
 def is_vec_query(kind):
@@ -453,6 +461,13 @@ TILE_CHILDREN = ["Dense", "Toeplitz", "Kron", "Sum", "Matmul", "Diag", "BlockDia
 # (base batch shape, block_dim) - block_dim in torch convention (index into the full shape, negative from the right)
 BLOCKDIMS = [([3, 2, 4], 0), ([3, 2, 2], -5), ([2, 3], 0), ([2, 3, 2], -4), ([2, 3, 1, 2], 1), ([2, 1, 3], -5), ([3, 2, 4], -3)]
 BLOCKDIM_CHILDREN = ["Dense", "Toeplitz", "Diag", "Sum", "Root", "Kron", "Matmul", "ConstantMul"]
+
+
+# (frame batch shape, dim in torch convention, sizes of the pieces along dim)
+CATBATCH = [([3], 0, [1, 2]), ([2, 3], 0, [1, 1, 2]), ([2, 3], 1, [2, 1]), ([2, 3], -3, [1, 2, 1]), ([2, 1, 2], 1, [1, 2]),
+            ([2, 2], -4, [2, 3])]
+CATBATCH_CHILDREN = ["Dense", "Toeplitz", "Diag", "Sum", "Matmul", "Root", "ConstantMul", "Kernel", "UserMinimal", "Triangular"]
+SQUARE_KIDS = {"Toeplitz", "Diag", "Root", "Triangular"}
 
 
 def cells(quick):
@@ -495,6 +510,13 @@ def cells(quick):
                 if quick and (gi + chi) % 2:
                     continue
                 out.append(("BlockDim:" + cls, ch, str(gi), ("sq2", "1x1", "wide")[(gi + chi) % 3] if cls != "BlockDiag" else ("sq2", "1x1")[(gi + chi) % 2], 2))
+    # concatenation along a BATCH dimension: outer / inner / middle position (positive and negative dim), 2-3 pieces of
+    # different sizes, pieces of different classes
+    for gi in range(len(CATBATCH)):
+        for chi, ch in enumerate(CATBATCH_CHILDREN):
+            if quick and (gi + chi) % 2:
+                continue
+            out.append(("CatBatch", ch, str(gi), ("sq2", "wide", "1x1", "tall")[(gi + chi) % 4], 2))
     if not quick:
         for ci, cls in enumerate(ob.ALL):
             for b in bk:
@@ -512,6 +534,25 @@ def gen_expr(rng, cell):
         base = ob.gen(rng, child or "Dense", batch=list(base_batch), m=m, n=n, depth=max(1, depth - 1))
         e = {"cls": "BatchRepeat", "base": base, "rep": list(rep)}
         return sanitize(rng, e, cell)
+    if cls == "CatBatch":
+        frame, dim, sizes = CATBATCH[int(b)]
+        nb = len(frame)
+        pos_ = dim if dim >= 0 else dim + nb + 2
+        ci = CATBATCH_CHILDREN.index(child)
+        if child in SQUARE_KIDS:
+            n = m
+        pieces = []
+        for k, sz_ in enumerate(sizes):
+            kid = child if k == 0 else CATBATCH_CHILDREN[(ci + k) % len(CATBATCH_CHILDREN)]
+            if kid in SQUARE_KIDS and m != n:
+                kid = "Dense"
+            pb = list(frame)
+            pb[pos_] = sz_
+            x = ob.gen(rng, kid, batch=pb, m=m, n=n, depth=1, child="Dense")
+            if ob.shape_of(x) != pb + [m, n]:
+                x = ob.gen(rng, "Dense", batch=pb, m=m, n=n)
+            pieces.append(x)
+        return sanitize(rng, {"cls": "Cat", "ops": pieces, "dim": dim}, ("Cat", child, "()", s, depth))
     if cls.startswith("BlockDim:"):
         bb, bd = BLOCKDIMS[int(b)]
         kind = cls.split(":")[1]
@@ -693,11 +734,15 @@ def shrink(e, kind, fk, dtype_tag, text=""):
 
 # ------------------------------------------------------------------------------------------ main stages
 
-def observe_all(ctx, rng, cell_list):
-    """build, query and judge.  returns list of case dicts"""
+def _observe_chunk(args):
+    """worker: build, query and judge one chunk of cells.  The random stream of a chunk depends only on (seed, chunk index),
+    so the result does not depend on how the chunks are distributed over the workers."""
+    seed, ci, chunk = args
+    torch.set_num_threads(1)
+    rng = random.Random(seed * 1000003 + ci)
     cases = []
     skipped = {"gen": 0, "build": 0, "size": 0, "inexpressible": 0, "invalid": 0}
-    for cell in cell_list:
+    for cell in chunk:
         try:
             e = gen_expr(rng, cell)
         except Exception:
@@ -751,6 +796,41 @@ def observe_all(ctx, rng, cell_list):
                 nd += 1
     finally:
         torch.set_default_dtype(old)
+    return cases, skipped, nd
+
+
+CHUNK = 40
+WORKERS = 3
+
+
+def observe_all(ctx, seed, cell_list):
+    """build, query and judge every cell (3 worker processes).  returns (cases, skipped, number of default-dtype evaluations)"""
+    import multiprocessing
+    from concurrent.futures import ProcessPoolExecutor
+    tasks = [(seed, i // CHUNK, cell_list[i:i + CHUNK]) for i in range(0, len(cell_list), CHUNK)]
+    results, failed = [None] * len(tasks), []
+    try:
+        with ProcessPoolExecutor(max_workers=WORKERS, mp_context=multiprocessing.get_context("spawn")) as ex:
+            futs = [ex.submit(_observe_chunk, t) for t in tasks]
+            for i, f in enumerate(futs):
+                try:
+                    results[i] = f.result()
+                except Exception as exn:      # a worker died (e.g. out of memory on a loaded machine)
+                    failed.append(repr(exn)[:80])
+    except Exception as exn:
+        failed.append(repr(exn)[:80])
+    if failed:
+        ctx.say("worker pool: %d chunk(s) recomputed in the main process (%s)" % (sum(r is None for r in results), failed[0]))
+    for i, t in enumerate(tasks):             # same computation, same random stream: the result does not depend on who ran it
+        if results[i] is None:
+            results[i] = _observe_chunk(t)
+    cases, nd = [], 0
+    skipped = {"gen": 0, "build": 0, "size": 0, "inexpressible": 0, "invalid": 0}
+    for cs, sk, n in results:
+        cases += cs
+        nd += n
+        for k, v in sk.items():
+            skipped[k] += v
     return cases, skipped, nd
 
 
@@ -831,17 +911,25 @@ def run(ctx):
     def on_fail(info):
         # a proof obligation broke: search the implementation at thorough width with the oracle only
         r2 = random.Random(ctx.seed + 1)
-        cs, _, _ = observe_all(ctx, r2, cells(False) if ctx.quick else cell_list)
+        cs, _, _ = observe_all(ctx, ctx.seed + 1, cells(False) if ctx.quick else cell_list)
         st = {"predicate_failures": 0}
         before = ctx.violations
         report_predicate_failures(ctx, r2, cs, st)
         return ctx.violations > before
     ok = common.proof_stage(ctx, on_fail)
+    stage = {"proof_s": round(time.time() - t0, 1)}
 
+    t1 = time.time()
     n_kf = replay_known(ctx)
-    cases, skipped, n_dd = observe_all(ctx, rng, cell_list)
+    stage["replay_known_s"] = round(time.time() - t1, 1)
+    t1 = time.time()
+    cases, skipped, n_dd = observe_all(ctx, ctx.seed, cell_list)
+    stage["observe_s"] = round(time.time() - t1, 1)
+    t1 = time.time()
     stats = {"predicate_failures": 0, "model_mismatches": 0, "repaired_cells": 0}
     report_predicate_failures(ctx, rng, cases, stats)
+    stage["triage_s"] = round(time.time() - t1, 1)
+    t1 = time.time()
 
     n_cov = 0
     mism = []
@@ -890,6 +978,7 @@ def run(ctx):
 
     if ok:
         cases = all_cases
+    stage["shards_s"] = round(time.time() - t1, 1)
     evals = sum(len(cs["rows"]) for cs in cases)
     keys = set()
     cls_hist = {}
@@ -923,7 +1012,7 @@ def run(ctx):
         "classes": len(cls_hist), "class_histogram": cls_hist,
         "model_mismatches": stats["model_mismatches"], "predicate_failures": stats["predicate_failures"],
         "repaired_known_cells": stats["repaired_cells"], "known_finding_witnesses_still_failing": n_kf,
-        "samples": samples, "wall_python_s": round(time.time() - t0, 1),
+        "samples": samples, "wall_python_s": round(time.time() - t0, 1), "stage_seconds": stage,
     })
     ctx.assumptions = [
         "entries are small integers, so float32/float64 results are exact (FFT-based Toeplitz products up to 1e-6 / 2e-2)",
